@@ -627,10 +627,12 @@ def builtin_workload(ck, st, L, X, K, rng, tier):
 # generated triclinic cells (ctypes)
 # ------------------------------------------------------------------------------------------------------------
 def gen_cell(rng, k, goodZ, nodata):
+    tries = 0
     while True:
+        tries += 1
         abc = np.round(rng.uniform(3.0, 14.0, 3), 4)
         ang = np.round(rng.uniform(50.0, 130.0, 3), 3)
-        if k % 5 == 1:
+        if k % 5 == 1 and tries == 1:       # a symmetric choice that turns out degenerate (flat cell) is replaced by a random cell on the next pass
             # cells with symmetry: equal angles (rhombohedral, primitive fcc 60, primitive bcc 109.47), equal edges, hexagonal, monoclinic,
             # orthogonal - exactly equal arguments are where a special-cased formula would sit
             kind = (k // 5) % 7
